@@ -149,6 +149,22 @@ CHECKS = [
      "it and the equivariance clauses are evaluated on every sampled case. With ties the EER value is not compared with the "
      "exact model (float noise on flat stretches decides the branch). np.isclose by its formula; bisection with fuel 64.",
      "Lean 4 proof (partial) about a hand-written model + differential correspondence check", "DESIGN.md §5 C06"),
+ chk("C20",
+     "Lean theorems over exact rationals, for any inverse pair Phi/PhiInv, any sqrt and any lawful generator: C20_inverse (fnr o "
+     "threshold_at_fnr = id on (0,1), fpr o threshold_at_fpr = id, and both converses), C20_roc_consistent/_errors/_points, "
+     "C20_from_metrics (FNR(0)=fnr, FPR(0)=fpr, n = floor(s1/fnr)+floor(s2/fpr), p_pos = nb_pos/n), C20_sample_split (k / n-k "
+     "scores, score class kept), C20_bernoulli (exactly floor(n p) ones among n 0/1 entries), C20_joint_sum, C20_joint_valid "
+     "(ValueError iff a joint probability is negative; nothing else raises), C20_marginals (n columns; 0 <= ones - n p_i < 2), "
+     "C20_shape, and C20_spec_* (the model satisfies the executable clauses with eps=0). Tied to /repo by running NormalDataset / "
+     "BernoulliDataset / CorrelatedBernoullilDataset on parameter sweeps (scalar, 1-d, 2-d arguments; n from call or dataset; rho "
+     "inside, at and outside the valid range; random and non-random; seeded generator wrapped by a recorder and rng=None), "
+     "feeding the model the real scipy standard-normal cdf/ppf values, the recorded np.sqrt and generator responses, and "
+     "evaluating the Lean spec predicates on the implementation's own outputs (round trips use implementation outputs only).",
+     BASE_NOTE + "scipy.stats.norm cdf/ppf (standard form), np.sqrt and np.random.Generator are oracles (inverse-pair / lawful-"
+     "generator hypotheses stated per theorem, instances exhibited); scipy's loc/scale, sf, isf forms are modelled algebraically; "
+     "float floors are judged with floorOK(eps=1e-9) and compared exactly only away from integers; the validity clause is skipped "
+     "when a joint probability is within 1e-12 of 0 (there float rounding decides: e.g. p1=p2=0.2, rho=1 raises).",
+     "Lean 4 proof about a hand-written model + differential correspondence check", "DESIGN.md §5 C20"),
 ]
 
 ALL = [f"C{i:02d}" for i in range(1, 21)]
